@@ -109,12 +109,12 @@ func c14Scopes(tier string) []*drv.Scope {
 				want, a2 := refAreaFloat(buf)
 				got := clipper.Area64(buf)
 				c.Exec(1)
-				if !within1ulp(got, want) {
-					c.Fail("Area64", "", "Area64(%v)=%v, exact shoelace/2=%v", buf, got, want)
+				if got != want {
+					c.Fail("Area64", "", "Area64(%v)=%v, exact shoelace/2 rounded once to float64=%v", buf, got, want)
 				}
 				gp := clipper.AreaPaths64(Paths{buf, buf})
 				c.Exec(1)
-				if !within1ulp(gp, 2*want) && !within1ulp(gp/2, want) {
+				if gp != want+want {
 					c.Fail("AreaPaths64", "", "AreaPaths64({p,p})=%v, exact=%v", gp, 2*want)
 				}
 				pos := clipper.IsPositive64(buf)
@@ -133,7 +133,7 @@ func c14Scopes(tier string) []*drv.Scope {
 	if tier == "thorough" {
 		maxN = 6
 	}
-	for _, e := range []enum.Embed{enum.Eunit, enum.Ebig, enum.EbigSk} {
+	for _, e := range []enum.Embed{enum.Eunit, enum.Ebig, enum.EbigSk, enum.EbigOdd} {
 		for n := 3; n <= maxN; n++ {
 			e, n := e, n
 			out = append(out, areaScope(fmt.Sprintf("area/P(3,%d)/%s", n, e.Name), enum.PathCount(3, n), n-2,
@@ -188,6 +188,31 @@ func c14Scopes(tier string) []*drv.Scope {
 				}
 			}}
 	}
+	// triangles and points over a 7-value alphabet squared: near-diagonal edges of length 2^30 with points
+	// one or two units off them (tiny non-zero cross products next to products beyond 2^53)
+	a7 := []int64{0, 1, -1, 1 << 29, -(1 << 29), (1 << 29) - 1, (1 << 26) + 1}
+	n7 := uint64(len(a7) * len(a7))
+	pt7 := func(i uint64) Pt { return Pt{X: a7[i%uint64(len(a7))], Y: a7[i/uint64(len(a7))]} }
+	out = append(out, &drv.Scope{Name: "pip/triangles over A7^2 x points of A7^2", Level: 3, Size: n7 * n7 * n7,
+		Show: func(idx uint64) any {
+			return map[string]any{"triangle": pathLit(Path{pt7(idx % n7), pt7((idx / n7) % n7), pt7(idx / (n7 * n7))}), "points": "all 49 points of the alphabet squared"}
+		},
+		Run: func(c *drv.Ctx, idx uint64) {
+			tri := Path{pt7(idx % n7), pt7((idx / n7) % n7), pt7(idx / (n7 * n7))}
+			if tri[0].Y == tri[1].Y && tri[1].Y == tri[2].Y {
+				return
+			}
+			for k := uint64(0); k < n7; k++ {
+				pt := pt7(k)
+				want := oracle.PointInPolygonRef(pt, tri)
+				got := int(clipper.PointInPolygon(pt, tri))
+				c.Exec(1)
+				if got != want {
+					c.Fail("PointInPolygon", "", "PointInPolygon(%v, %v)=%s, exact=%s", pt, tri, pipName(got), pipName(want))
+				}
+			}
+			c.Nontriv()
+		}})
 	pe := []enum.Embed{enum.Eunit, enum.Eax, {Name: "E_big27", Big: true, F: func(x, y int64) Pt { return Pt{X: (x - 1) << 27, Y: (y-1)<<27 + 3*x} }}}
 	for _, e := range pe {
 		out = append(out, pipScope(e, 4, 3, 1), pipScope(e, 4, 4, 2))
